@@ -875,7 +875,10 @@ def r_dir(d):
             reqs = {"gopher": b"/\r\n", "gopher+": b"/\t$\r\n", "http": b"GET / HTTP/1.0\r\n\r\n"}
             os.makedirs(os.path.join(top, "subdir"), exist_ok=True)
             open(os.path.join(top, "zero.bin"), "wb").close()
-            open(os.path.join(top, ".Links"), "w").write("Name=An info line\nType=i\nPath=fake\nHost=(NULL)\nPort=0\n")
+            open(os.path.join(top, ".Links"), "w").write("Name=An info line\nType=i\nPath=fake\nHost=(NULL)\nPort=0\n\n"
+                                                         "Name=Second by number\nType=1\nPath=/two\nHost=h.example\nPort=70\nNumb=2\n\n"
+                                                         "Name=Last, negative\nType=1\nPath=/neg\nHost=h.example\nPort=70\nNumb=-1\n\n"
+                                                         "Path=./c.txt\nNumb=1\n")
             fresh = {}
             for n_, rq in reqs.items():
                 if os.path.exists(cachefile):
@@ -927,6 +930,9 @@ def r_dir(d):
             cfg.set("handlers.dir.DirHandler", "cachetime", "0")
             for f in ("README", "ReadMe", "readme", "Zebra", "apple"):
                 open(os.path.join(top, f), "w").write(f)
+            # entries that tie on Numb= but not on their title, coming from different link files
+            for i_, lf in enumerate((".linksA", ".linksB", ".linksC")):
+                open(os.path.join(top, lf), "w").write("".join("Name=%s%d\nType=1\nPath=/remote%d%d\nHost=h.example\nPort=70\nNumb=%d\n\n" % ("TQK"[i_], n_, i_, n_, n_) for n_ in (1, 2, -3)))
             real_listdir = os.listdir
             names = real_listdir(top)
             orders = [sorted(names), sorted(names, reverse=True)] + [random.Random(k).sample(names, len(names)) for k in range(12)]
@@ -942,8 +948,35 @@ def r_dir(d):
                         return {"confirmed": True, "scenario": "the same directory enumerated by the OS in different orders gives different listings", "handler": cls.__name__, "listings": [list(x) for x in list(seen)[:2]]}
             finally:
                 os.listdir = real_listdir
-                for f in ("README", "ReadMe", "readme", "Zebra", "apple"):
+                for f in ("README", "ReadMe", "readme", "Zebra", "apple", ".linksA", ".linksB", ".linksC"):
                     os.unlink(os.path.join(top, f))
+            # C07: exactly the entries that are neither dot-files nor matched by the configured ignore pattern, at the root
+            # and below it (the pattern is matched against <directory selector>/<name>)
+            import re as _re2
+            patt = cfg.get("handlers.dir.DirHandler", "ignorepatt")
+            cand = ["lib", "bin", "etc", "dev", "lost+found", "gophermap", "robots.txt", "nohup.out", "veronica.ctl", "core", "foo~", "x.abstract", "y.ask", "keep.txt", "library", "bin2"]
+            os.makedirs(os.path.join(top, "sub2"), exist_ok=True)
+            for base_, dir_ in (("", top), ("/sub2", os.path.join(top, "sub2"))):
+                for f in cand:
+                    open(os.path.join(dir_, f), "w").write(f)
+            try:
+                for base_, dir_ in (("", top), ("/sub2", os.path.join(top, "sub2"))):
+                    for cls in (DirHandler, UMNDirHandler):
+                        hb.rootpath = None; hm.rootpath = None; hm.handlers = None
+                        from pygopherd import testutil as _tu2
+                        h = cls(base_ or "/", "", _tu2.get_testing_protocol((base_ or "/") + "\r\n", cfg), cfg, os.stat(dir_))
+                        h.prepare()
+                        got = sorted(e.selector for e in h.getdirlist())
+                        want = sorted(base_ + "/" + f for f in os.listdir(dir_) if not f.startswith(".") and not _re2.search(patt, base_ + "/" + f))
+                        if got != want:
+                            return {"confirmed": True, "scenario": "listing of %s vs. the entries neither hidden nor matched by ignorepatt" % (base_ or "/"), "handler": cls.__name__,
+                                    "listed but should be ignored": sorted(set(got) - set(want)), "missing": sorted(set(want) - set(got))}
+            finally:
+                for base_, dir_ in (("", top), ("/sub2", os.path.join(top, "sub2"))):
+                    for f in cand:
+                        os.unlink(os.path.join(dir_, f))
+                import shutil as _sh2
+                _sh2.rmtree(os.path.join(top, "sub2"), ignore_errors=True)
             cfg.set("handlers.dir.DirHandler", "cachetime", "180")
         if "prep_entries" in name or "prep_initfiles" in name:
             if os.path.exists(cachefile):
@@ -996,7 +1029,8 @@ def r_site_crawl(d):
     try:
         files = {"plain.txt": b"hello\n", "what?.txt": b"question\n", "notes": b"n\n", "notes?v=2": b"v2\n", "a b&c=d.txt": b"amp\n",
                  "100%.txt": b"pct\n", "empty.bin": b"", "blk.bin": bytes(range(256)) * 16, "big.bin": bytes(range(256)) * 17 + b"x",
-                 "why?really?.txt": b"two\n"}
+                 "why?really?.txt": b"two\n",
+                 "100%20cotton.txt": b"literal percent-twenty\n", "rate%3Dlow.txt": b"literal percent-3D\n", "50%25off.txt": b"literal percent-25\n"}
         os.makedirs(os.path.join(top, "sub"))
         for n, data in files.items():
             open(os.path.join(top, n), "wb").write(data)
@@ -1065,6 +1099,8 @@ def r_site_crawl(d):
 
 
 REALISERS.append(("pygopherd/handlers/virtual.py::", r_site_crawl))
+REALISERS.append(("pygopherd/protocols/base.py::BaseGopherProtocol.__init__", r_site_crawl))
+REALISERS.append(("pygopherd/protocols/base.py::BaseGopherProtocol.slashnormalize", r_site_crawl))
 def _first_confirmed(*fns):
     def run(d):
         last = None
@@ -1102,8 +1138,8 @@ def r_gophermap(d):
     try:
         cfg = _config({})
         cfg.set("pygopherd", "root", top)
-        firsts = ["0About", "1Sub dir", "hHome page", "iinfo with tab", "0", "9 spaced  name ", "IImage", "TTelnet 3270", "URL list"]
-        sels = [None, "", "rel.txt", "/abs/file.txt", "URL:http://example.org/", "sub/deeper.txt", " padded ", "URLs/list.txt", "URL", "/pub//archive", "proxy?u=http://example.org//x"]
+        firsts = ["0About", "1Sub dir", "hHome page", "iinfo with tab", "0", "9 spaced  name ", "IImage", "TTelnet 3270", "URL list", "0Caf\udce9 latin-1", "0Na\u00efve utf-8"]
+        sels = [None, "", "rel.txt", "/abs/file.txt", "URL:http://example.org/", "sub/deeper.txt", " padded ", "URLs/list.txt", "URL", "/pub//archive", "proxy?u=http://example.org//x", "caf\udce9.txt", "r\udce9sum\udce9s/na\u00efve.txt"]
         hosts = [None, "", "gopher.example.org"]
         ports = [None, "", "70", " 7070 "]
         links = []
@@ -1119,7 +1155,7 @@ def r_gophermap(d):
                     for p in ports:
                         links.append(f + "\t" + s + "\t" + h + ("" if p is None else "\t" + p))
         links = [l for l in links if not (l.split("\t")[0].strip()[1:] == "" and (len(l.split("\t")) < 2 or l.split("\t")[1].strip() == ""))]
-        infos = ["Welcome to the server", "", "   indented text", "no tab: but a colon", "trailing blanks   "]
+        infos = ["Welcome to the server", "", "   indented text", "no tab: but a colon", "trailing blanks   ", "Caf\udce9 du coin (latin-1 bytes)", "na\u00efve (utf-8)"]
         nscen = 0
         for depth, base in enumerate(["", "/docs", "/docs/deep er/x"]):
             dirp = top + base
@@ -1133,7 +1169,7 @@ def r_gophermap(d):
                         lines.append(infos[(k + i) % len(infos)])
                         lines.append(l)
                     text = eol.join(lines) + (eol if last_nl else "")
-                    with open(os.path.join(dirp, "gophermap"), "w", newline="") as fh:
+                    with open(os.path.join(dirp, "gophermap"), "w", newline="", encoding="utf-8", errors="surrogateescape") as fh:
                         fh.write(text)
                     hb.rootpath = None; hm.rootpath = None; hm.handlers = None
                     h = BuckGophermapHandler(base or "/", "", None, cfg, os.stat(dirp))
@@ -1235,7 +1271,9 @@ def r_zip(d):
                  "naïve.txt": b"utf8 name\n", "empty/": b"", "page.html": b"<html><head><title>T &amp; U</title></head><body>x</body></html>",
                  "deep/er/still/x.bin": bytes(range(256)), "café/mü.txt": b"nested utf8\n"}
         links = {"ln_rel": "a.txt", "dir/ln_up": "../a.txt", "ln_abs": "/dir/b.txt", "ln_dangling": "nowhere.txt", "ln_a": "ln_b", "ln_b": "ln_a",
-                 "ln_dir": "dir", "dir/sub/ln_upup": "../../gm/doc.txt"}
+                 "ln_dir": "dir", "dir/sub/ln_upup": "../../gm/doc.txt",
+                 # climbs above the tree; clamping the surplus '..' would name an existing member
+                 "dir/ln_clamp": "../../a.txt", "dir/sub/ln_clamp2": "../../../gm/doc.txt"}
         escaping = {"ln_escape": "../outside.txt", "dir/ln_escape2": "../../outside.txt"}
         open(os.path.join(top, "outside.txt"), "w").write("OUTSIDE THE ARCHIVE\n")
         for n, data in files.items():
@@ -1266,7 +1304,8 @@ def r_zip(d):
 
         sels = ["", "/", "/a.txt", "/dir", "/dir/", "/dir/b.txt", "/dir/sub", "/dir/sub/c.txt", "/.hidden", "/gm", "/gm/doc.txt", "/missing", "/dir/missing",
                 "/a.txt/below", "/empty", "/page.html", "/naïve.txt", "/café", "/café/mü.txt", "/deep", "/deep/er/still/x.bin", "/ln_rel", "/dir/ln_up",
-                "/ln_abs", "/ln_dangling", "/ln_a", "/ln_dir", "/ln_dir/b.txt", "/dir/sub/ln_upup", "/dir/.Links", "/gm/gophermap", "/dir/b.txt.abstract"]
+                "/ln_abs", "/ln_dangling", "/ln_a", "/ln_dir", "/ln_dir/b.txt", "/dir/sub/ln_upup", "/dir/.Links", "/gm/gophermap", "/dir/b.txt.abstract",
+                "/dir/ln_clamp", "/dir/sub/ln_clamp2"]
         enc = lambda s: s.encode("utf-8", "surrogateescape")
         reqs = [("gopher", lambda s: enc(s) + b"\r\n"), ("gopher+ $", lambda s: enc(s) + b"\t$\r\n"), ("gopher+ !", lambda s: enc(s) + b"\t!\r\n"),
                 ("http", lambda s: b"GET " + enc(s or "/") + b" HTTP/1.0\r\n\r\n")]
@@ -1367,6 +1406,9 @@ def r_tal(d):
         ctx.addGlobal("num", 42)
         ctx.addGlobal("nested", {"k": EVIL, "l": [1, 2]})
         ctx.addGlobal("canary", Canary())
+        ctx.addGlobal("emptyit", iter(()))
+        ctx.addGlobal("emptygen", (x for x in ()))
+        ctx.addGlobal("gen", (x for x in ("g1", "g2")))
         return ctx
 
     def skeleton(doc):
@@ -1394,6 +1436,8 @@ def r_tal(d):
                 atts = atts.replace("EXPR", ["evil", "it | evil", "string:${evil} and $num"][variant]).replace("OMIT", ["", "evil", "nothing"][variant])
                 inner = '<i tal:repeat="j nested/l" tal:content="repeat/j/number">n</i><span tal:define="global g evil" tal:content="g">t</span>'
                 templates.append('<html><body><p id="static" %s>body %s</p><hr><div tal:define="z num">after <b tal:content="z">z</b></div></body></html>' % (atts, inner))
+    templates.append('<html><body><p tal:define="title string:Listing" tal:repeat="it emptyit">a</p><p tal:define="t2 evil" tal:repeat="it emptygen">b</p>'
+                     '<p tal:define="t3 num" tal:repeat="it gen" tal:content="it">c</p></body></html>')
     templates.append('<html><body><p tal:content="python: canary()">x</p><p tal:condition="python: canary()">y</p><p tal:attributes="a python: canary()">z</p></body></html>')
     templates.append('<html><div metal:define-macro="m"><p>macro <span metal:define-slot="s">default</span></p></div><div metal:use-macro="container/macros/m"><b metal:fill-slot="s" tal:content="evil">x</b></div></html>')
     n = 0
@@ -1441,7 +1485,7 @@ def r_tal(d):
                         return {"confirmed": True, "scenario": "two commands of one element jump to different symbols", "template": t}
                     stack[-1][1] = sym
         # ---- C18: expansion
-        for allow in (0, 1):
+        for allow in (0, 1, 0):   # off, on, and off again after the same expressions ran with the switch on
             ctx = mkctx(allow)
             if "macro" in t:
                 ctx.addGlobal("container", tpl)
@@ -1469,6 +1513,28 @@ def r_tal(d):
                 return {"confirmed": True, "scenario": "the context is not what it was before the expansion", "template": t,
                         "locals": [sorted(before_l), sorted(ctx.locals)], "stack depths": [depth_l, len(ctx.localStack), depth_r, len(ctx.repeatStack)],
                         "repeat": [sorted(before_r), sorted(ctx.repeatMap)]}
+    # ---- TAL semantics spot checks (each follows from the TAL specification; not an independent evaluator)
+    SEM = [('<ul><li tal:repeat="item rows"><i tal:repeat="item inner" tal:content="item">x</i> row <b tal:content="repeat/item/number">n</b> of <b tal:content="repeat/item/length">l</b></li></ul>',
+            {"rows": ["r1", "r2"], "inner": ["i1", "i2", "i3"]}, ["row <b>1</b> of <b>2</b>", "row <b>2</b> of <b>2</b>"],
+            "repeat variables are scoped: after an inner loop that re-uses the name, repeat/item refers to the outer loop again"),
+           ('<p tal:define="a string:Hello; b a; global g2 b" tal:content="b">x</p><h1 tal:content="g2">y</h1>', {}, ["<p>Hello</p>", "<h1>Hello</h1>"],
+            "tal:define binds left to right: a later definition sees the earlier ones of the same attribute"),
+           ('<p tal:define="a string:one"><b tal:define="a string:two" tal:content="a">x</b><i tal:content="a">y</i></p>', {}, ["<b>two</b>", "<i>one</i>"],
+            "a local define ends with its element"),
+           ('<p tal:condition="nothing">gone</p><p tal:condition="not:nothing" tal:replace="string:kept">x</p>', {}, ["kept"], "condition / replace"),
+           ('<a href="old" tal:attributes="href string:new; title default" title="t" tal:omit-tag="nothing">L</a>', {}, ['href="new"', 'title="t"', "</a>"], "attributes / default / omit-tag")]
+    for tsrc, extra, needles, why in SEM:
+        ctx = simpleTALES.Context()
+        for k_, v_ in extra.items():
+            ctx.addGlobal(k_, v_)
+        out = _io.StringIO()
+        try:
+            simpleTAL.compileHTMLTemplate(tsrc).expand(ctx, out)
+        except Exception as e:  # noqa
+            return {"confirmed": True, "scenario": why, "template": tsrc, "raised": repr(e)}
+        doc = out.getvalue()
+        if not all(n_ in doc for n_ in needles) or "gone" in doc:
+            return {"confirmed": True, "scenario": why, "template": tsrc, "output": doc, "expected to contain": needles}
     # ---- METAL: a fill-slot belongs to the nearest enclosing use-macro
     lib = simpleTAL.compileHTMLTemplate('<html><div metal:define-macro="outer">O[<span metal:define-slot="body">obody</span>|<span metal:define-slot="foot">ofoot</span>]</div>'
                                         '<p metal:define-macro="inner">I[<i metal:define-slot="body">ibody</i>|<i metal:define-slot="foot">ifoot</i>]</p></html>')
@@ -1636,6 +1702,15 @@ def r_sidecars(d):
                         return {"confirmed": True, "scenario": "Gopher+ block +%s of %s vs. the lines of its sidecar file" % (name, sel), "block": blocks.get(name), "file lines": want}
                 elif name in blocks:
                     return {"confirmed": True, "scenario": "%s has no %s sidecar of its own but its item information carries a +%s block" % (sel, ext, name), "block": blocks[name]}
+        # a sidecar added (or removed) between two requests shows in the second answer: nothing about sidecars is remembered
+        open(os.path.join(top, "plain.txt.abstract"), "w").write("Added later\n")
+        os.unlink(os.path.join(top, "notes.txt.keywords"))
+        out, _l = _serve(b"/plain.txt\t!\r\n", cfg)
+        if b"+ABSTRACT:\r\n Added later" not in out:
+            return {"confirmed": True, "scenario": "plain.txt.abstract was created after /plain.txt had been looked at once: the second item-information answer has no +ABSTRACT block", "answer": repr(out[:300])}
+        out, _l = _serve(b"/notes.txt\t!\r\n", cfg)
+        if b"+KEYWORDS" in out:
+            return {"confirmed": True, "scenario": "notes.txt.keywords was deleted between two requests: the second answer still carries +KEYWORDS", "answer": repr(out[:300])}
         return {"confirmed": None, "note": "sidecar blocks agree with their files"}
     finally:
         shutil.rmtree(top, ignore_errors=True)
@@ -1896,3 +1971,93 @@ def r_zipcache(d):
 
 REALISERS.append(("pygopherd/handlers/ZIP.py::VFSZip.init_cache", r_zipcache))
 REALISERS.append(("pygopherd/handlers/ZIP.py::VFSZip.save_cache", r_zipcache))
+
+
+# ------------------------------------------------------------------- extension stripping modes (C08 stand-in)
+def r_extstrip(d):
+    """The three documented modes of [handlers.UMN.UMNDirHandler] extstrip on Welcome.txt and pygopherd.tar.gz:
+    none keeps both names, nonencoded gives Welcome / pygopherd.tar.gz, full gives Welcome / pygopherd."""
+    import shutil, tempfile
+    import pygopherd.handlers.base as hb
+    import pygopherd.handlers.HandlerMultiplexer as hm
+    import pygopherd.handlers.UMN as umn
+    from pygopherd import initialization, logger
+    logger.log = lambda m: None
+    top = tempfile.mkdtemp(prefix="pyvc-ext-", dir="/var/tmp")
+    try:
+        for n in ("Welcome.txt", "pygopherd.tar.gz"):
+            open(os.path.join(top, n), "wb").write(b"x")
+        want = {"none": ["Welcome.txt", "pygopherd.tar.gz"], "nonencoded": ["Welcome", "pygopherd.tar.gz"], "full": ["Welcome", "pygopherd"]}
+        for mode, names in want.items():
+            cfg = _config({})
+            cfg.set("pygopherd", "root", top)
+            cfg.set("handlers.UMN.UMNDirHandler", "extstrip", mode)
+            cfg.set("handlers.dir.DirHandler", "cachetime", "0")
+            hb.rootpath = None; hm.rootpath = None; hm.handlers = None; umn.extstrip = None
+            initialization.init_mimetypes(cfg)
+            out, _l = _serve(b"/\r\n", cfg)
+            got = sorted(l.split(b"\t")[0][1:].decode() for l in out.split(b"\r\n") if l and l != b".")
+            if got != sorted(names):
+                return {"confirmed": True, "scenario": "extstrip = %s: menu names of Welcome.txt and pygopherd.tar.gz" % mode, "menu": got, "documented": sorted(names)}
+        return {"confirmed": None, "note": "extension stripping as documented in all three modes"}
+    finally:
+        shutil.rmtree(top, ignore_errors=True)
+        hb.rootpath = None; hm.rootpath = None; hm.handlers = None; umn.extstrip = None
+
+
+REALISERS.append(("pygopherd/fileext.py::", r_extstrip))
+
+
+# ------------------------------------------------------------------- HTML titles as entry names (C13 stand-in)
+def r_titles(d):
+    """HTML files whose <title> is folded over lines, carries markup and entities, is never closed, or hides
+    '+ADMIN:' lines: whatever becomes the entry name stays on one line of the Gopher+ item information and the
+    directory listing, and adds no element to the HTML listing."""
+    import shutil, tempfile
+    import pygopherd.handlers.base as hb
+    import pygopherd.handlers.HandlerMultiplexer as hm
+    top = tempfile.mkdtemp(prefix="pyvc-title-", dir="/var/tmp")
+    try:
+        cfg = _config({})
+        cfg.set("pygopherd", "root", top)
+        cfg.set("handlers.UMN.UMNDirHandler", "extstrip", "none")
+        cfg.set("handlers.dir.DirHandler", "cachetime", "0")
+        hb.rootpath = None; hm.rootpath = None; hm.handlers = None
+        import pygopherd.handlers.UMN as umn
+        umn.extstrip = None
+        pages = {"plain.html": "<html><head><title>Plain title</title></head><body>x</body></html>",
+                 "folded.html": "<html><head><title>Folded\n   over\r\n\tlines</title></head></html>",
+                 "markup.html": "<html><head><title>A &lt;b&gt; &amp; <script>alert(1)</script> \"q\"</title></head></html>",
+                 "unclosed.html": "<html><head><title>Never closed\r\n+ADMIN:\r\n Admin: evil\r\n+ABSTRACT:\r\n injected\r\n<body>text",
+                 "unclosed2.html": "<title>first line\nsecond line\n+VIEWS:\n text/evil: <9k>\n",
+                 "notitle.html": "<html><body>nothing</body></html>"}
+        for n, c in pages.items():
+            open(os.path.join(top, n), "w", newline="").write(c)
+        allowed = {"+INFO", "+ADMIN", "+VIEWS"}
+        for n in pages:
+            out, _l = _serve(b"/" + n.encode() + b"\t!\r\n", cfg)
+            lines = out.decode("utf-8", "replace").split("\r\n")
+            heads = [l.split(":")[0] for l in lines if l.startswith("+") and not l.startswith("+-")]
+            if heads.count("+INFO") != 1 or any(h not in allowed for h in heads) or heads.count("+ADMIN") != 1:
+                return {"confirmed": True, "scenario": "item information of %s: block headers" % n, "headers": heads, "answer": repr(out[:300])}
+            info = [l for l in lines if l.startswith("+INFO:")][0]
+            if info.count("\t") < 3:
+                return {"confirmed": True, "scenario": "the title of %s broke the +INFO line" % n, "line": info}
+        out, _l = _serve(b"/\r\n", cfg)
+        n_lines = [l for l in out.split(b"\r\n") if l and l != b"."]
+        if len(n_lines) != len(pages) or any(l.count(b"\t") < 3 for l in n_lines):
+            return {"confirmed": True, "scenario": "plain listing of a directory of %d HTML files" % len(pages), "lines": [repr(l[:80]) for l in n_lines]}
+        out, _l = _serve(b"GET / HTTP/1.0\r\n\r\n", cfg)
+        if b"<script" in out.lower():
+            return {"confirmed": True, "scenario": "an HTML title became markup in the HTML listing"}
+        return {"confirmed": None, "note": "HTML titles stay inside their lines"}
+    finally:
+        shutil.rmtree(top, ignore_errors=True)
+        hb.rootpath = None; hm.rootpath = None; hm.handlers = None
+        try:
+            umn.extstrip = None
+        except Exception:  # noqa
+            pass
+
+
+REALISERS.append(("pygopherd/handlers/html.py::", r_titles))
